@@ -25,6 +25,8 @@ pub struct Case {
     /// the .kismet_temp directory itself was last modified two hours ago (nothing created or removed there since),
     /// whatever the age of the files in it (a file created long ago and still being written is young)
     pub temp_dir_idle: bool,
+    /// plain front-ends only: the application names the cache directory by the empty path (the working directory)
+    pub empty_path: bool,
     pub capacity: usize,
     /// 0 plain set, 1 plain put, 2 sharded put, 3 sharded temp_dir(None), 4 stacked ensure (plain writer)
     pub via: u8,
@@ -32,7 +34,7 @@ pub struct Case {
 
 impl Case {
     pub fn to_json(&self) -> Value {
-        json!({"keys": self.keys, "foreign": self.foreign, "temps": self.temps, "capacity": self.capacity, "via": self.via, "temp_dir_idle": self.temp_dir_idle})
+        json!({"keys": self.keys, "foreign": self.foreign, "temps": self.temps, "capacity": self.capacity, "via": self.via, "temp_dir_idle": self.temp_dir_idle, "empty_path": self.empty_path})
     }
     pub fn from_json(v: &Value) -> Case {
         Case {
@@ -40,6 +42,7 @@ impl Case {
             foreign: v["foreign"].as_u64().unwrap() as u8,
             temps: v["temps"].as_u64().unwrap() as u8,
             temp_dir_idle: v["temp_dir_idle"].as_bool().unwrap_or(false),
+            empty_path: v["empty_path"].as_bool().unwrap_or(false),
             capacity: v["capacity"].as_u64().unwrap() as usize,
             via: v["via"].as_u64().unwrap() as u8,
         }
@@ -207,7 +210,12 @@ pub fn run_case(case: &Case, rep: &mut Report) -> Vec<(String, String)> {
         0 | 1 => {
             let dir = sc.path("cache");
             materialise(&dir, case, now);
-            let cache = kismet_cache::plain::Cache::new(dir.clone(), case.capacity);
+            let cache = if case.empty_path {
+                std::env::set_current_dir(&dir).unwrap();
+                kismet_cache::plain::Cache::new(std::path::PathBuf::new(), case.capacity)
+            } else {
+                kismet_cache::plain::Cache::new(dir.clone(), case.capacity)
+            };
             let via = case.via;
             let before = world::snapshot(&dir);
             let (r, trace) = run::as_participant(0, 0, || {
@@ -219,6 +227,9 @@ pub fn run_case(case: &Case, rep: &mut Report) -> Vec<(String, String)> {
                 }
             });
             rep.transitions += trace.len() as u64;
+            if case.empty_path {
+                std::env::set_current_dir("/").unwrap();
+            }
             let after = world::snapshot(&dir);
             bad.extend(judge(case, &before, &after, true, true));
             (dir, r, true, true)
@@ -299,7 +310,7 @@ pub fn run(tier: Tier, shard: Shard, rep: &mut Report) {
     rep.rule = format!(
         "directory populations: every sequence of n <= {} key-named files over {{old unread, old read, new unread}} x \
          {} subsets of foreign objects (.app old, .app2 new, .appdir/, sub/, key-like directory) x {} subsets of \
-         .kismet_temp contents (ages limit-10s, limit-1s, exactly limit, limit+1s, limit+1h, old subdirectory, young second hard link, and the .kismet_temp directory itself idle for two hours or not to an application file, old hard \
+         .kismet_temp contents (ages limit-10s, limit-1s, exactly limit, limit+1s, limit+1h, old subdirectory, young second hard link, and the .kismet_temp directory itself idle for two hours or not; plain caches also named by the empty path to an application file, old hard \
          link to a published entry) x capacity 0..=n+1 x maintenance forced through plain set, plain put, sharded put, \
          sharded temp_dir, stacked ensure. Non-trivial = a foreign object or a temp file with a decided fate is present.",
         max_n,
@@ -337,13 +348,19 @@ pub fn run(tier: Tier, shard: Shard, rep: &mut Report) {
                             if !shard.mine(no) {
                                 continue;
                             }
-                            let case = Case { keys: keys.clone(), foreign, temps, capacity, via, temp_dir_idle: false };
+                            let case = Case { keys: keys.clone(), foreign, temps, capacity, via, temp_dir_idle: false, empty_path: false };
                             record(&case, rep);
                             if temps & 0b1000_0011 != 0 && foreign % 8 == 0 {
                                 let mut idle = case.clone();
                                 idle.temp_dir_idle = true;
                                 record(&idle, rep);
                                 rep.count("idle_temp_dir_cases", 1);
+                            }
+                            if via <= 1 && temps != 0 && foreign % 8 == 1 {
+                                let mut ep = case.clone();
+                                ep.empty_path = true;
+                                record(&ep, rep);
+                                rep.count("empty_path_cases", 1);
                             }
                             if no % 40009 == 0 {
                                 rep.sample(case.to_json());
@@ -356,7 +373,7 @@ pub fn run(tier: Tier, shard: Shard, rep: &mut Report) {
     }
     rep.fact("max_n", json!(max_n));
     if shard.index == 0 {
-        rep.sample(Case { keys: vec![2, 2], foreign: 1, temps: 0b11011, capacity: 1, via: 1, temp_dir_idle: false }.to_json());
+        rep.sample(Case { keys: vec![2, 2], foreign: 1, temps: 0b11011, capacity: 1, via: 1, temp_dir_idle: false, empty_path: false }.to_json());
     }
 }
 
